@@ -54,6 +54,24 @@ template <class T, class V> static inline T verif_aaf(T volatile* p, V v)
   return r;
 }
 #define __sync_add_and_fetch(p, v) verif_aaf(p, v)
+// compare-and-swap / exchange: scheduling points before and after (no trace event of their own).  A counter update
+// assembled from a plain read and a compare-and-swap can then be interleaved between its two halves, so a lost update
+// shows in the end state (payload never released / released twice) of an explicit schedule.
+template <class T, class U, class V> static inline T verif_vcas(T volatile* p, U o, V n)
+{ verif_point(); T r = __sync_val_compare_and_swap(p, (T)o, (T)n); verif_point(); return r; }
+template <class T, class U, class V> static inline bool verif_bcas(T volatile* p, U o, V n)
+{ verif_point(); bool r = __sync_bool_compare_and_swap(p, (T)o, (T)n); verif_point(); return r; }
+template <class T, class V> static inline T verif_tas(T volatile* p, V n)
+{ verif_point(); T r = __sync_lock_test_and_set(p, (T)n); verif_point(); return r; }
+template <class T, class V> static inline T verif_xchg(T volatile* p, V n, int order)
+{ verif_point(); T r = __atomic_exchange_n(p, (T)n, order); verif_point(); return r; }
+template <class T, class V> static inline bool verif_cmpxchg(T volatile* p, T* e, V n, bool weak, int so, int fo)
+{ verif_point(); bool r = __atomic_compare_exchange_n(p, e, (T)n, weak, so, fo); verif_point(); return r; }
+#define __sync_val_compare_and_swap(p, o, n) verif_vcas(p, o, n)
+#define __sync_bool_compare_and_swap(p, o, n) verif_bcas(p, o, n)
+#define __sync_lock_test_and_set(p, n) verif_tas(p, n)
+#define __atomic_exchange_n(p, n, order) verif_xchg(p, n, order)
+#define __atomic_compare_exchange_n(p, e, n, w, so, fo) verif_cmpxchg(p, e, n, w, so, fo)
 // the same counter updates written with the __sync_* / __atomic_* read-modify-write builtins of the other spellings
 // (value after, value before): still one atomic step bracketed by two scheduling points and one trace event.
 // An Atomic.hpp that counts by other means gives no scheduling points: a `go` run then executes the threads one
@@ -82,10 +100,16 @@ template <class T, class V> static inline T verif_aaf(T volatile* p, V v)
 #undef __atomic_sub_fetch
 #undef __atomic_fetch_add
 #undef __atomic_fetch_sub
+#undef __sync_val_compare_and_swap
+#undef __sync_bool_compare_and_swap
+#undef __sync_lock_test_and_set
+#undef __atomic_exchange_n
+#undef __atomic_compare_exchange_n
 
 extern "C" int __sanitizer_install_malloc_and_free_hooks(void (*malloc_hook)(const volatile void*, size_t),
                                                          void (*free_hook)(const volatile void*));
 
+enum { MAXLEN = 100 };
 enum { NV = 6, MAXTH = 4, NSLOT = NV * MAXTH, MAXT = 65536, MAXPROG = 64, MAXSCHED = 4096, MAXTRACE = 1 << 16 };
 enum Flav { STR, VAR, PTR, XML };
 enum Kind { K_LIST, K_MAP, K_ARRAY, K_STRING, K_ELEMENT, K_TEXT, K_PLAIN, K_CONV };
@@ -95,6 +119,7 @@ static Kind kind;
 static bool conc;
 // flavour `nest` (handles stored inside payloads) lives in rc_nest.cpp
 static bool nest;
+static bool strx;      // flavour strx: String with uncounted data (attach, literals) and the modifiers built from other calls
 void nest_begin(const char* kind);
 void nest_op(long c, vh::Tok& t);
 void nest_end(long c);
@@ -116,23 +141,31 @@ static unsigned long long ref_of(int x);
 
 // ---- ledgers ------------------------------------------------------------------------------------
 // window: 0 none, 1 the library call under test, 2 modification of the payload through the reference
-// the call returned, 3 temporaries of the harness.  main ledger: payload blocks (window 1; Variant and
-// Xml::Variant: blocks of the size of the outer block); aux ledger: everything else allocated in a window.
+// the call returned, 3 temporaries of the harness.  main ledger: payload blocks; aux ledger: everything else
+// allocated in a window.
+// Which block is a payload block is decided by PROVENANCE, not by size: String - every allocation made inside the
+// library call (String allocates nothing else); Variant / Xml::Variant - the block the handle the call was made on
+// refers to when the call returns (settle()).  While the call runs, its first allocation is booked as the payload block
+// (the order in which the write accessors and value assignments allocate; the concurrent access trace needs the
+// event at the time it happens); settle() corrects the booking by address.
 static __thread int g_win = 0;
-static size_t g_size_filter = 0;          // 0 = every allocation in window 1 is a payload block
-struct Blk { const volatile void* p; size_t n; };
+static bool g_by_addr = false;            // Variant, Xml::Variant
+struct Blk { const volatile void* p; size_t n; unsigned long seq; int tid; };      // tid: the thread that allocated it
 static Blk g_tab[MAXT]; static int g_ntab = 0;
 static Blk g_aux[MAXT]; static int g_naux = 0;
 static long g_frees = 0;
+static unsigned long g_seq = 0;
+static __thread unsigned long g_call_first;       // blocks with seq >= g_call_first were allocated by the call in progress
 static pthread_mutex_t g_lock = PTHREAD_MUTEX_INITIALIZER;
 
 static void on_malloc(const volatile void* p, size_t n)
 {
   if(!g_win) return;
-  bool main = g_win == 1 && (!g_size_filter || n == g_size_filter);
+  bool main = g_win == 1 && (!g_by_addr || !op_alloc_seen);
   pthread_mutex_lock(&g_lock);
-  if(main) { if(g_ntab < MAXT) { g_tab[g_ntab].p = p; g_tab[g_ntab++].n = n; } }
-  else if(g_naux < MAXT) { g_aux[g_naux].p = p; g_aux[g_naux++].n = n; }
+  unsigned long seq = ++g_seq;
+  if(main) { if(g_ntab < MAXT) { g_tab[g_ntab].p = p; g_tab[g_ntab].seq = seq; g_tab[g_ntab].tid = g_me; g_tab[g_ntab++].n = n; } }
+  else if(g_naux < MAXT) { g_aux[g_naux].p = p; g_aux[g_naux].seq = seq; g_aux[g_naux].tid = g_me; g_aux[g_naux++].n = n; }
   pthread_mutex_unlock(&g_lock);
   if(main) { tr('a', ""); op_alloc_seen = true; }
   else if(g_win == 1 && op_alloc_seen && !op_copy_seen) { op_copy_seen = true; tr('c', ""); }
@@ -149,6 +182,31 @@ static void on_free(const volatile void* p)
       if(g_aux[i].p == p) { g_aux[i] = g_aux[--g_naux]; break; }
   pthread_mutex_unlock(&g_lock);
   if(main) tr('f', "");
+}
+// a library call on handle(s) of the slots [lo, hi) begins / has returned
+static void begin_call() { op_alloc_seen = op_copy_seen = false; pthread_mutex_lock(&g_lock); g_call_first = g_seq + 1; pthread_mutex_unlock(&g_lock); }
+static const void* payload_of(int x);
+static bool live[NSLOT];
+static void settle(int lo, int hi)
+{
+  if(!g_by_addr) return;
+  pthread_mutex_lock(&g_lock);
+  // booked as payload by this call, but no handle refers to it: not a payload block
+  for(int i = g_ntab - 1; i >= 0; --i) {
+    if(g_tab[i].seq < g_call_first || g_tab[i].tid != g_me) continue;
+    bool held = false;
+    for(int x = lo; x < hi && !held; ++x) held = live[x] && payload_of(x) == (const void*)g_tab[i].p;
+    if(!held) { if(g_naux < MAXT) g_aux[g_naux++] = g_tab[i]; g_tab[i] = g_tab[--g_ntab]; }
+  }
+  // allocated by this call as something else, but a handle refers to it: a payload block
+  for(int x = lo; x < hi; ++x) {
+    if(!live[x]) continue;
+    const void* p = payload_of(x);
+    if(!p) continue;
+    for(int i = g_naux - 1; i >= 0; --i)
+      if((const void*)g_aux[i].p == p && g_aux[i].seq >= g_call_first && g_aux[i].tid == g_me) { if(g_ntab < MAXT) g_tab[g_ntab++] = g_aux[i]; g_aux[i] = g_aux[--g_naux]; break; }
+  }
+  pthread_mutex_unlock(&g_lock);
 }
 static bool in_main_block(const volatile void* p)
 {
@@ -196,11 +254,26 @@ typedef RefCount::Ptr<D> PD;
 // ---- variables: raw storage, explicit construction / destruction ----------------------------------
 union Slot { char s[sizeof(String)]; char v[sizeof(Variant)]; char p[sizeof(P)]; char x[sizeof(XV)]; long long align; double d; };
 static Slot slots[NSLOT];
-static bool live[NSLOT];
 #define S(i) ((String*)slots[i].s)
 #define V(i) ((Variant*)slots[i].v)
 #define Q(i) ((P*)slots[i].p)
 #define X(i) ((XV*)slots[i].x)
+
+// the counted block a handle refers to (0: static / inline data)
+static const void* payload_of(int x)
+{
+  if(flav == STR) return (S(x)->data != &String::emptyData && S(x)->data != &S(x)->_data) ? (const void*)S(x)->data : 0;
+  if(flav == VAR) return (V(x)->data != &Variant::nullData && V(x)->data != &V(x)->_data) ? (const void*)V(x)->data : 0;
+  if(flav == XML) return X(x)->data != &XV::nullData ? (const void*)X(x)->data : 0;
+  return (const void*)Q(x)->obj;
+}
+
+// String flavours: marker 1,2,3 = 'a','b','c'; 4,5,6 = 'A','B','C'; 7 = ' ' (so that toLowerCase / toUpperCase / trim act on them)
+static const char MCHAR[9] = "?abcABC ";
+static char mchar(int m) { return (m >= 1 && m <= 7) ? MCHAR[m] : '?'; }
+static char mark_of(char c) { for(int m = 1; m <= 7; ++m) if(MCHAR[m] == c) return (char)('0' + m); return '?'; }
+// the text of a contents argument ("-": empty)
+static int text_of(char* out, const char* d) { int n = (d[0] == '-' || d[0] == '_') ? 0 : (int)strlen(d); for(int i = 0; i < n; ++i) out[i] = mchar(d[i] - '0'); out[n] = 0; return n; }
 
 static Variant::Type vtype() { return kind == K_MAP ? Variant::mapType : kind == K_ARRAY ? Variant::arrayType : kind == K_STRING ? Variant::stringType : Variant::listType; }
 static XV::Type xtype() { return kind == K_TEXT ? XV::textType : XV::elementType; }
@@ -224,7 +297,7 @@ static void fill_element(Xml::Element& e, const char* d) { for(int i = 0, n = di
 
 static void create(int x, const char* d)
 {
-  if(flav == STR) { g_win = 1; new (slots[x].s) String(d, (usize)digits_len(d)); g_win = 0; }
+  if(flav == STR) { char buf[96]; int n = text_of(buf, d); g_win = 1; new (slots[x].s) String(buf, (usize)n); g_win = 0; }
   else if(flav == VAR) {
     g_win = 3;
     if(kind == K_LIST) { List<Variant> t; fill_list(t, d); g_win = 1; new (slots[x].v) Variant(t); g_win = 3; }
@@ -283,7 +356,7 @@ static bool write(int x, int m, char mode, bool traced = false)
     TR_REF();
     g_win = 1;
     if(mode == 'r') S(x)->reserve(S(x)->length() + 64);
-    else if(m > 0) S(x)->append((char)('0' + m)); else S(x)->detach();
+    else if(m > 0) S(x)->append(mchar(m)); else S(x)->detach();
     g_win = 0;
     return true;
   }
@@ -334,6 +407,132 @@ static void viaelem(int d, int s, bool both)
   }
 }
 
+static int string_markers(char* out, const String& s);
+static unsigned long g_sink_seq;
+// ---- Variant: scalar values (held in the handle itself), swap, the `type != T` branches ------------------
+static void assign_scalar(int x, int k)
+{
+  g_win = 1;
+  switch(k) {
+  case 0: *V(x) = true; break;
+  case 1: *V(x) = 1.5; break;
+  case 2: *V(x) = (int)5; break;
+  case 3: *V(x) = (uint)5; break;
+  case 4: *V(x) = (int64)5; break;
+  default: *V(x) = (uint64)5; break;
+  }
+  // kind string: the write accessor toString() turns a scalar into its text ("5", "true"), which is a matter of the values, not
+  // of the payloads: the scalar is cleared again, so that the handle is a null handle for what follows
+  if(kind == K_STRING) V(x)->clear();
+  g_win = 0;
+}
+static void construct_scalar(int x, int k)
+{
+  g_win = 1;
+  switch(k) {
+  case 0: new (slots[x].v) Variant(true); break;
+  case 1: new (slots[x].v) Variant(1.5); break;
+  case 2: new (slots[x].v) Variant((int)5); break;
+  case 3: new (slots[x].v) Variant((uint)5); break;
+  case 4: new (slots[x].v) Variant((int64)5); break;
+  default: new (slots[x].v) Variant((uint64)5); break;
+  }
+  if(kind == K_STRING) V(x)->clear();
+  g_win = 0;
+  live[x] = true;
+}
+static bool assignval(int x, const char* d);
+// the write accessor of ANOTHER type than the one stored, then the value assignment of the case's type (which now is the
+// other type); Xml element cases: `v = text`, then toElement()
+static void retype(int x, const char* d)
+{
+  if(flav == VAR) {
+    begin_call();
+    g_win = 1;
+    if(kind == K_LIST) V(x)->toMap(); else if(kind == K_MAP) V(x)->toArray(); else if(kind == K_ARRAY) V(x)->toString(); else V(x)->toList();
+    g_win = 0;
+    settle(0, NV);
+    begin_call();
+    assignval(x, d);
+  } else if(kind == K_TEXT) {
+    begin_call();
+    g_win = 1; X(x)->toElement(); g_win = 0;
+    settle(0, NV);
+    begin_call();
+    assignval(x, d);
+  } else {
+    begin_call();
+    g_win = 3; { String t(d, (usize)digits_len(d)); g_win = 1; *X(x) = t; g_win = 3; } g_win = 0;
+    settle(0, NV);
+    begin_call();
+    g_win = 1; X(x)->toElement(); g_win = 0;
+  }
+}
+
+// ---- the modifiers of String --------------------------------------------------------------------------------------
+// Every one of them is run twice: on the handle of the case (whose payload other handles may share), and on a private,
+// unshared String with the same text (arguments that are handles: private copies of their text, or the private String
+// itself when the argument is the handle).  The two results must be the same text: `priv=ok`.
+static char g_priv[512];
+static char g_arena[1 << 16]; static int g_arena_pos;
+struct StrArgs { int a, b, off, len; char t1[96]; int n1; char t2[96]; int n2; const char* att; };
+static bool is_str_mod(const char* o)
+{
+  static const char* names[] = { "tolower", "toupper", "replace", "charptr", "appends", "pluseq", "pluseqc", "appendp", "appendself", "prepends", "prependp",
+                                 "trim", "attach", "assignlit", "printf", "printfself", "join", "replacess", "constptr", 0 };
+  for(int i = 0; names[i]; ++i) if(!strcmp(o, names[i])) return true;
+  return false;
+}
+// window w for the library call, 3 for the temporaries
+static void str_apply(String& s, const char* o, const String* src, const String* src2, const StrArgs& g, int w)
+{
+  int back = g_win;
+  if(!strcmp(o, "tolower")) { g_win = w; s.toLowerCase(); }
+  else if(!strcmp(o, "toupper")) { g_win = w; s.toUpperCase(); }
+  else if(!strcmp(o, "replace")) { g_win = w; s.replace(mchar(g.a), mchar(g.b)); }
+  else if(!strcmp(o, "charptr")) { g_win = w; char* p = s; for(usize i = 0, n = s.length(); i < n; ++i) if(p[i] == mchar(g.a)) p[i] = mchar(g.b); }
+  else if(!strcmp(o, "appends")) { g_win = w; s.append(*src); }
+  else if(!strcmp(o, "pluseq")) { g_win = w; s += *src; }
+  else if(!strcmp(o, "pluseqc")) { g_win = w; s += mchar(g.a); }
+  else if(!strcmp(o, "appendp")) { g_win = w; s.append(g.t1, (usize)g.n1); }
+  else if(!strcmp(o, "appendself")) {
+    usize len = s.length(), off = (usize)g.off < len ? (usize)g.off : len, n = (usize)g.len < len - off ? (usize)g.len : len - off;
+    g_win = w; const char* p = s; s.append(p + off, n);
+  }
+  else if(!strcmp(o, "prepends")) { g_win = w; s.prepend(*src); }
+  else if(!strcmp(o, "prependp")) { g_win = w; s.prepend(g.t1, (usize)g.n1); }
+  else if(!strcmp(o, "trim")) { g_win = w; if(!strcmp(g.t1, " ")) s.trim(); else s.trim(g.t1); }
+  else if(!strcmp(o, "attach")) { g_win = w; s.attach(g.att, (usize)g.n1); }
+  else if(!strcmp(o, "assignlit")) { g_win = w; if(g.a == 0) s = String(""); else if(g.a == 1) s = String("ab"); else s = String("aB C"); }
+  else if(!strcmp(o, "printf")) { g_win = w; s.printf("%s", g.t1); }
+  else if(!strcmp(o, "printfself")) { g_win = w; s.printf("%s%s", g.t1, (const char*)s); }
+  else if(!strcmp(o, "join")) { g_win = 3; { List<String> l; l.append(*src); l.append(*src2); g_win = w; s.join(l, mchar(g.a)); g_win = 3; } }
+  else if(!strcmp(o, "replacess")) { g_win = 3; { String n(g.t1, (usize)g.n1), r(g.t2, (usize)g.n2); g_win = w; s.replace(n, r); g_win = 3; } }
+  else if(!strcmp(o, "constptr")) { g_win = w; const char* p = s; g_sink_seq += (unsigned char)p[0]; }
+  g_win = back;
+}
+static void str_mod(int x, const char* o, int y, int y2, StrArgs& g)
+{
+  String* a = S(x);
+  const String* src = y >= 0 ? S(y) : 0; const String* src2 = y2 >= 0 ? S(y2) : 0;
+  if(!strcmp(o, "attach")) {          // the attached text lives outside every payload; the byte behind it is not NUL
+    g.att = g_arena + g_arena_pos; memcpy(g_arena + g_arena_pos, g.t1, (size_t)g.n1); g_arena[g_arena_pos + g.n1] = 'Z'; g_arena_pos += g.n1 + 1;
+  }
+  g_win = 3;
+  {
+    String pa(a->data->str, a->data->len);
+    String ps(src ? src->data->str : "", src ? src->data->len : 0), ps2(src2 ? src2->data->str : "", src2 ? src2->data->len : 0);
+    str_apply(pa, o, src == a ? &pa : &ps, src2 == a ? &pa : &ps2, g, 3);
+    g_win = 0;
+    str_apply(*a, o, src, src2, g, 1);
+    g_win = 3;
+    bool same = pa.data->len == a->data->len && !memcmp(pa.data->str, a->data->str, a->data->len);
+    if(same) strcpy(g_priv, "priv=ok");
+    else { int n = sprintf(g_priv, "priv=DIFF("); n += string_markers(g_priv + n, pa); if(pa.data->len == 0) g_priv[n++] = '_'; strcpy(g_priv + n, ")"); }
+  }
+  g_win = 0;
+}
+
 // ---- contents ---------------------------------------------------------------------------------------
 static int put_digit(char* out, long v) { out[0] = (v >= 0 && v <= 9) ? (char)('0' + v) : '?'; return 1; }
 static int put_chars(char* out, const char* p, usize n)
@@ -342,10 +541,11 @@ static int put_chars(char* out, const char* p, usize n)
   return (int)n;
 }
 static int string_contents(char* out, const String& s) { return put_chars(out, s.data->str, s.data->len); }
+static int string_markers(char* out, const String& s) { for(usize i = 0; i < s.data->len; ++i) out[i] = mark_of(s.data->str[i]); return (int)s.data->len; }
 static int contents(char* out, int i)      // "_" when empty
 {
   int a = 0;
-  if(flav == STR) a = string_contents(out, *S(i));
+  if(flav == STR) a = string_markers(out, *S(i));
   else if(flav == VAR) {
     const Variant* v = V(i);
     if(v->data->type != vtype()) return sprintf(out, "T%d", (int)v->data->type);
@@ -427,7 +627,7 @@ static long releases() { return flav == PTR ? T::destroyed : g_frees; }
 static void observe_to(char* out, int nslots, int group)
 {
   const void* cls[NSLOT]; int ncls = 0;
-  static char vals[NSLOT * 160], classes[512], rcs[1024];
+  static char vals[NSLOT * 400], classes[512], rcs[1024];
   int a = 0, b = 0, r = 0;
   for(int i = 0; i < nslots; ++i) {
     const void* blk = 0; unsigned long long rc = 0; bool same = true;
@@ -438,7 +638,7 @@ static void observe_to(char* out, int nslots, int group)
       if(S(i)->data != &String::emptyData && S(i)->data != &S(i)->_data) { blk = S(i)->data; rc = S(i)->data->ref; }
     } else if(flav == VAR) {
       const Variant* v = V(i);
-      if(v->isNull()) a += sprintf(vals + a, "- ");
+      if(v->isNull() || v->data == &v->_data) a += sprintf(vals + a, "- ");        // null, or a scalar held in the handle itself: no payload
       else { a += contents(vals + a, i); vals[a++] = ' '; }
       if(v->data != &Variant::nullData && v->data != &v->_data) { blk = v->data; rc = v->data->ref; }   // _data: inline, never counted
     } else if(flav == XML) {
@@ -532,7 +732,7 @@ static void exec_op(int t, const COp& o)
   int base = t * NV;
   int x = base + o.a, y = base + o.b;
   bool ax = o.a >= 0 && o.a < c_nv, bx = o.b >= 0 && o.b < c_nv;
-  op_alloc_seen = op_copy_seen = false;
+  begin_call();
   switch(o.kind) {
   case 'c': if(ax && bx && !live[x] && live[y]) copy(x, y); break;
   case 'a': if(ax && bx && live[x] && live[y]) assign(x, y); break;
@@ -557,6 +757,7 @@ static void exec_op(int t, const COp& o)
   case 'r': if(ax && live[x]) readval(x); break;
   case 's': if(flav == PTR && ax && bx && live[x] && live[y] && x != y) Q(x)->swap(*Q(y)); break;
   }
+  settle(base, base + NV);
 }
 
 static void* thread_main(void* arg)
@@ -590,7 +791,9 @@ static void conc_run(char* out)
   int first = -1;
   for(int t = 0; t < c_nth && first < 0; ++t) if(c_own[t] > 0) first = t * NV;
   if(first >= 0) {
+    begin_call();
     create(first, c_val);
+    settle(first, first + 1);
     for(int t = 0; t < c_nth; ++t)
       for(int j = 0; j < c_own[t]; ++j)
         if(t * NV + j != first) copy(t * NV + j, first);
@@ -607,7 +810,7 @@ static void conc_run(char* out)
   else __atomic_store_n(&g_start, 1, __ATOMIC_RELEASE);
   for(int t = 0; t < c_nth; ++t) pthread_join(th[t], 0);
   int mode = g_mode; g_mode = 0;
-  static char obs[NSLOT * 160 + 2048];
+  static char obs[NSLOT * 400 + 2048];
   observe_to(obs, c_nth * NV, NV);
   for(int i = 0; i < NSLOT; ++i) if(live[i]) destroy(i);
   int n = sprintf(out, "%s | after=%ld%s", obs, live_blocks() + g_naux, T::bad ? " BADCANARY" : "");
@@ -615,7 +818,7 @@ static void conc_run(char* out)
   g_mode = mode;
 }
 
-static char g_out[NSLOT * 160 + 4096 + MAXTRACE], g_first[NSLOT * 160 + 4096 + MAXTRACE];
+static char g_out[NSLOT * 400 + 4096 + MAXTRACE], g_first[NSLOT * 400 + 4096 + MAXTRACE];
 
 static void conc_op(long c, vh::Tok& t)
 {
@@ -667,6 +870,8 @@ static void begin(long, vh::Tok& t)
   const char* f = t.n > 2 ? t.v[2] : "str";
   const char* k = t.n > 3 ? t.v[3] : "";
   if(!strcmp(f, "nest")) { nest = true; nest_begin(k); return; }
+  strx = !strcmp(f, "strx");
+  g_arena_pos = 0; memset(g_arena, 'Z', sizeof(g_arena));
   if(f[0] == 'c') { conc = true; ++f; }
   if(!strcmp(f, "var")) flav = VAR;
   if(!strcmp(f, "ptr")) flav = PTR;
@@ -675,9 +880,7 @@ static void begin(long, vh::Tok& t)
   if(flav == VAR) kind = !strcmp(k, "map") ? K_MAP : !strcmp(k, "array") ? K_ARRAY : !strcmp(k, "string") ? K_STRING : K_LIST;
   if(flav == XML) kind = !strcmp(k, "text") ? K_TEXT : K_ELEMENT;
   if(flav == PTR) kind = !strcmp(k, "conv") ? K_CONV : K_PLAIN;
-  g_size_filter = 0;
-  if(flav == VAR) g_size_filter = sizeof(Variant::Data) + (kind == K_MAP ? sizeof(HashMap<String, Variant>) : kind == K_ARRAY ? sizeof(Array<Variant>) : kind == K_STRING ? sizeof(String) : sizeof(List<Variant>));
-  if(flav == XML) g_size_filter = sizeof(XV::Data) + (kind == K_TEXT ? sizeof(String) : sizeof(Xml::Element));
+  g_by_addr = flav == VAR || flav == XML;
   g_ntab = 0; g_naux = 0; g_frees = 0;
   T::constructed = T::destroyed = T::bad = 0;
   c_nth = 0; c_nv = 1; strcpy(c_val, "-");
@@ -685,9 +888,9 @@ static void begin(long, vh::Tok& t)
 
 static void observe(long c)
 {
-  static char out[NSLOT * 160 + 2048];
+  static char out[NSLOT * 400 + 2048];
   observe_to(out, NV, 0);
-  printf("%ld %s\n", c, out);
+  if(g_priv[0]) printf("%ld %s | %s\n", c, out, g_priv); else printf("%ld %s\n", c, out);
 }
 
 static bool is_digits(const char* d)
@@ -696,6 +899,8 @@ static bool is_digits(const char* d)
   for(const char* p = d; *p; ++p) if(*p < '1' || *p > '7') return false;
   return d[0] != 0 && strlen(d) <= 64;
 }
+
+static bool is_marker(const char* d) { return d[0] >= '1' && d[0] <= '7' && !d[1]; }
 
 static void op(long c, long, vh::Tok& t)
 {
@@ -706,8 +911,77 @@ static void op(long c, long, vh::Tok& t)
   const char* arg = t.n > 2 ? t.v[2] : "-";
   long y = atol(arg);
   if(x < 0 || x >= NV) { printf("%ld ?bad-var\n", c); return; }
-  bool two = !strcmp(o, "copy") || !strcmp(o, "fromraw") || !strcmp(o, "assign") || !strcmp(o, "assignraw") || !strcmp(o, "swap") || !strcmp(o, "viaelem");
-  if(two && (y < 0 || y >= NV)) { printf("%ld ?bad-var\n", c); return; }
+  bool two = !strcmp(o, "copy") || !strcmp(o, "fromraw") || !strcmp(o, "assign") || !strcmp(o, "assignraw") || !strcmp(o, "swap") || !strcmp(o, "viaelem")
+             || !strcmp(o, "appends") || !strcmp(o, "pluseq") || !strcmp(o, "prepends") || !strcmp(o, "vswap");
+  if(two && (arg[0] < '0' || arg[0] > '9' || y < 0 || y >= NV)) { printf("%ld ?bad-var\n", c); return; }
+  const char* arg2 = t.n > 3 ? t.v[3] : "-";
+  const char* arg3 = t.n > 4 ? t.v[4] : "-";
+  g_priv[0] = 0;
+  begin_call();
+  if(is_str_mod(o)) {
+    bool x_only = !strcmp(o, "attach") || !strcmp(o, "assignlit") || !strcmp(o, "printf") || !strcmp(o, "printfself") || !strcmp(o, "join") || !strcmp(o, "replacess") || !strcmp(o, "constptr");
+    if(flav != STR || (x_only && !strx)) { printf("%ld ?unsupported\n", c); return; }
+    StrArgs g; memset(&g, 0, sizeof(g));
+    int src = -1, src2 = -1; bool run = live[x];
+    if(!strcmp(o, "replace") || !strcmp(o, "charptr")) {
+      if(!is_marker(arg) || !is_marker(arg2)) { printf("%ld ?bad-contents\n", c); return; }
+      g.a = arg[0] - '0'; g.b = arg2[0] - '0';
+    } else if(!strcmp(o, "pluseqc")) {
+      if(!is_marker(arg)) { printf("%ld ?bad-contents\n", c); return; }
+      g.a = arg[0] - '0';
+    } else if(!strcmp(o, "appends") || !strcmp(o, "pluseq") || !strcmp(o, "prepends")) { src = (int)y; run = run && live[y]; }
+    else if(!strcmp(o, "appendp") || !strcmp(o, "prependp") || !strcmp(o, "trim") || !strcmp(o, "attach") || !strcmp(o, "printf") || !strcmp(o, "printfself")) {
+      if(!is_digits(arg)) { printf("%ld ?bad-contents\n", c); return; }
+      g.n1 = text_of(g.t1, arg);
+    } else if(!strcmp(o, "appendself")) {
+      long n2 = atol(arg2);
+      if(t.n < 4 || arg[0] < '0' || arg[0] > '9' || arg2[0] < '0' || arg2[0] > '9' || y < 0 || y > 80 || n2 < 0 || n2 > 80) { printf("%ld ?bad-contents\n", c); return; }
+      g.off = (int)y; g.len = (int)n2;
+    } else if(!strcmp(o, "assignlit")) {
+      if(arg[0] < '0' || arg[0] > '2' || arg[1]) { printf("%ld ?bad-contents\n", c); return; }
+      g.a = arg[0] - '0';
+    } else if(!strcmp(o, "join")) {
+      long y2 = atol(arg2);
+      if(t.n < 5 || !is_marker(arg3) || arg[0] < '0' || arg[0] > '9' || arg2[0] < '0' || arg2[0] > '9' || y < 0 || y >= NV || y2 < 0 || y2 >= NV) { printf("%ld ?bad-contents\n", c); return; }
+      src = (int)y; src2 = (int)y2; g.a = arg3[0] - '0'; run = run && live[y] && live[y2];
+    } else if(!strcmp(o, "replacess")) {
+      if(!is_digits(arg) || !is_digits(arg2) || !strcmp(arg, "-")) { printf("%ld ?bad-contents\n", c); return; }
+      g.n1 = text_of(g.t1, arg); g.n2 = text_of(g.t2, arg2);
+    }
+    // both sides skip a call that would make a text longer than MAXLEN
+    if(run) {
+      usize len = S(x)->length();
+      if(!strcmp(o, "appends") || !strcmp(o, "pluseq") || !strcmp(o, "prepends")) run = len + S(src)->length() <= MAXLEN;
+      else if(!strcmp(o, "appendp") || !strcmp(o, "prependp") || !strcmp(o, "printfself")) run = len + (usize)g.n1 <= MAXLEN;
+      else if(!strcmp(o, "appendself")) run = 2 * len <= MAXLEN;
+      else if(!strcmp(o, "join")) run = S(src)->length() + S(src2)->length() < MAXLEN;
+      else if(!strcmp(o, "replacess")) run = len * (1 + (usize)g.n2) <= MAXLEN;
+    }
+    if(run) str_mod(x, o, src, src2, g);
+    observe(c);
+    return;
+  }
+  if(!strcmp(o, "assignscalar") || !strcmp(o, "nullk")) {
+    if(flav != VAR) { printf("%ld ?unsupported\n", c); return; }
+    int k = (arg[0] >= '0' && arg[0] <= '5') ? arg[0] - '0' : 2;
+    if(o[0] == 'a') { if(live[x]) assign_scalar(x, k); } else if(!live[x]) construct_scalar(x, k);
+  } else if(!strcmp(o, "vswap")) {
+    if(flav != VAR) { printf("%ld ?unsupported\n", c); return; }
+    if(live[x] && live[y]) { g_win = 1; V(x)->swap(*V(y)); g_win = 0; }
+  } else if(!strcmp(o, "retype")) {
+    if(!is_digits(arg)) { printf("%ld ?bad-contents\n", c); return; }
+    if(flav != VAR && flav != XML) { printf("%ld ?unsupported\n", c); return; }
+    if(live[x]) retype(x, arg);
+  } else if(!strcmp(o, "lit")) {
+    if(!strx) { printf("%ld ?unsupported\n", c); return; }
+    if(arg[0] < '0' || arg[0] > '2' || arg[1]) { printf("%ld ?bad-contents\n", c); return; }
+    if(!live[x]) {
+      g_win = 1;
+      if(arg[0] == '0') new (slots[x].s) String(""); else if(arg[0] == '1') new (slots[x].s) String("ab"); else new (slots[x].s) String("aB C");
+      g_win = 0;
+      live[x] = true;
+    }
+  } else
   if(!strcmp(o, "create")) {
     if(flav != PTR && !is_digits(arg)) { printf("%ld ?bad-contents\n", c); return; }
     if(!live[x]) create(x, arg);
@@ -760,6 +1034,7 @@ static void op(long c, long, vh::Tok& t)
   } else if(!strcmp(o, "destroy")) {
     if(live[x]) destroy(x);
   } else { printf("%ld ?unknown-op\n", c); return; }
+  settle(0, NV);
   observe(c);
 }
 
